@@ -24,23 +24,32 @@ def to_smt2(hyps, goal):
     return s.to_smt2()
 
 
+Z3_BIN = os.environ.get("PYVC_Z3_BIN") or ("/usr/local/bin/z3-new" if os.path.exists("/usr/local/bin/z3-new") else None)
+
+
 def _z3_check(smt2, timeout_ms):
-    ctx = z3.Context()
-    s = z3.Solver(ctx=ctx)
-    s.set("timeout", timeout_ms)
-    s.from_string(smt2)
+    """z3 as a killable subprocess (the in-process API occasionally ignores its timeout on quantified goals)"""
+    import shutil
+    zbin = Z3_BIN or shutil.which("z3-new") or shutil.which("z3")
+    with tempfile.NamedTemporaryFile("w", suffix=".smt2", delete=False) as f:
+        f.write(smt2 + "\n(get-model)\n")
+        path = f.name
     t0 = time.time()
-    r = s.check()
+    hard = timeout_ms / 1000.0 + 3
+    try:
+        p = subprocess.run([zbin, "-t:%d" % timeout_ms, "-T:%d" % int(hard + 1), "-smt2", path], capture_output=True, text=True, timeout=hard + 5)
+        out = p.stdout
+    except subprocess.TimeoutExpired:
+        out = "timeout"
+    finally:
+        os.unlink(path)
     dt = time.time() - t0
-    if r == z3.unsat:
+    first = out.strip().splitlines()[0] if out.strip() else ""
+    if first == "unsat":
         return "discharged", "z3", dt, None
-    if r == z3.sat:
-        try:
-            m = str(s.model())
-        except Exception:
-            m = ""
-        return "refuted", "z3", dt, m[:4000]
-    return "unknown", "z3", dt, s.reason_unknown()
+    if first == "sat":
+        return "refuted", "z3", dt, out[4:4000]
+    return "unknown", "z3", dt, (first or "no output")[:200]
 
 
 def _cvc5_check(smt2, timeout_s):
@@ -213,13 +222,17 @@ def relax_check(hyps, goal, timeout_ms=15000, max_terms=14, rounds=2):
         if not terms:
             terms = [z3.IntVal(0)]
         new = []
+        import itertools
         for q in quant:
             nv = q.num_vars()
             if nv > 2 or any(q.var_sort(i) != z3.IntSort() for i in range(nv)):
                 continue
-            import itertools
             for tup in itertools.product(terms, repeat=nv):
                 new.append(z3.substitute_vars(q.body(), *reversed(tup)))
+                if len(new) > 2500:
+                    break
+            if len(new) > 2500:
+                break
         insts = new
     s = z3.Solver()
     s.set("timeout", timeout_ms)
